@@ -1,5 +1,6 @@
 import S2T.Lemmas.HtmlSkip
 import S2T.Gen.HtmlSkip
+import S2T.Props.C17_Src
 /-!
 # C17 — Removed markup is removed completely and takes nothing else with it
 
